@@ -337,11 +337,33 @@ func cmdC07Reader(o opts) {
 		data = append(data, mk(id, pl, t0+1, 4)...)
 		contentRuns = append(contentRuns, contentRun{id, data, runStream(data, -1, "eof", []int{61}, false, streamCfg{key: key, bufSize: 512})})
 	}
+	// the rule knows no clock: histories over timestamps placed around the machine's own wall clock (now, 5 s before and
+	// after it, an hour and a day off, 2^47) - every pair, and seeded triples
+	nowTicks := uint64(time.Since(time.Date(2015, 1, 1, 0, 0, 0, 0, time.UTC)) / (10 * time.Microsecond))
+	around := []uint64{nowTicks, nowTicks - 500000, nowTicks + 500000, nowTicks + 360000000, nowTicks - 8640000000, 1 << 47, nowTicks - 1500000}
+	mkAt := func(ts uint64, seq int) []byte {
+		return sign(FrameJ{V: 2, IFlag: 1, Seq: seq % 256, Sys: 4, Comp: 190, ID: 30003, Payload: B{byte(seq), 2, 3}, Ck: 4660, Link: 53, Ts: le(ts, 6), Sig: B{0, 0, 0, 0, 0, 0}})
+	}
+	addClock := func(h []int) {
+		var data []byte
+		for i, a := range h {
+			data = append(data, mkAt(around[a], i+1)...)
+		}
+		contentRuns = append(contentRuns, contentRun{-1, data, runStream(data, -1, "eof", []int{97}, false, streamCfg{key: key, bufSize: 512})})
+	}
+	for a := range around {
+		for b := range around {
+			addClock([]int{a, b})
+		}
+	}
+	for i := 0; i < 30; i++ {
+		addClock([]int{r.Intn(len(around)), r.Intn(len(around)), r.Intn(len(around))})
+	}
 	defer func() {
 		<-pacedDone
 		for n, c := range contentRuns {
 			rec.Put(M{"e": "STREAM", "g": 1<<30 + 2 + n, "in": B(c.data), "errat": -1, "errkind": "eof", "sched": []int{61}, "with_data": false,
-				"dl": []int{}, "key": vecs[0].Key, "results": c.res, "clean": false, "tag": "win_whatever_the_frames_carry", "complete": true, "buf": 512})
+				"dl": []int{}, "key": vecs[0].Key, "results": c.res, "clean": false, "tag": map[bool]string{true: "win_around_the_wall_clock", false: "win_whatever_the_frames_carry"}[c.id < 0], "complete": true, "buf": 512})
 		}
 		rec.Put(M{"e": "STREAM", "g": 1<<30 + 1, "in": B(long), "errat": -1, "errkind": "eof", "sched": []int{977}, "with_data": false,
 			"dl": []int{}, "key": vecs[0].Key, "results": longRes, "clean": false, "tag": "win_long_run_of_old_frames", "complete": true, "buf": 512})
